@@ -223,6 +223,8 @@ func c01Stress(c *mon.Ctx, r *mon.Rand) {
 	desc := map[string]interface{}{"cached": cached, "interval_us": interval.Microseconds(), "shards": shards, "scopes": nScopes, "counters_per_scope": perScope,
 		"workers": nWorkers, "reacquire_workers": nReacq, "manual_passers": nPassers, "iterations": iters, "delay_strength": prof.Strength}
 	c.LogCase(fmt.Sprint(desc))
+	stopWatch := c.Watchdog(300*time.Second, "no-progress(deadlock?)", desc)
+	defer stopWatch()
 	inj.Install()
 	defer inj.Uninstall()
 	root, closer := tally.VerifNewRootScope(opts, interval, shards)
